@@ -388,7 +388,7 @@ def finish(pid, sums, tier, seed, level, rule, wall, extra_cov=None, assumptions
     "violations": len(viols),
   }
   os.makedirs(os.path.join(VERIF, "evidence"), exist_ok=True)
-  with open(os.path.join(VERIF, "evidence", f"{pid}.json"), "w") as f:
+  with open(os.path.join(VERIF, "evidence", f"{pid}.partial.json" if os.environ.get("WSYM_PARTIAL") else f"{pid}.json"), "w") as f:
     json.dump(ev, f, indent=1, default=str)
   for k in known_hits:
     print(k)
